@@ -35,7 +35,7 @@ S0(salt0) == [
   rst |-> [k \in K |-> "none"], icancel |-> [k \in K |-> FALSE],
   due |-> [k \in K |-> -1], nbad |-> [k \in K |-> 0], resent |-> [k \in K |-> 0],
   accN |-> {}, deliv |-> {}, named |-> {}, must |-> {}, upds |-> {}, allUpds |-> {}, seenUpd |-> {},
-  lastId |-> <<0, -1>>, content |-> 0]
+  lastId |-> <<0, -1>>, content |-> 0, frames |-> {}]
 
 Init == i = 1 /\ tr = -1 /\ s = S0(0)
 Reset == Ev.ev = "reset" /\ tr' = Ev.trace /\ s' = S0(Ev.salt0)
@@ -100,6 +100,11 @@ Settled ==
   /\ (Check = "C43") => \A k \in K : (s.pst[k] = "sent" /\ s.ppong[k]) => FALSE
   /\ (Check = "C41") => \A k \in K : (s.rst[k] = "sent" /\ s.due[k] # -1) => FALSE
 
+\* C08: a message's seqno is twice the number of content messages with a smaller id, plus one for a content message
+IdLess(a, b) == a[1] < b[1] \/ (a[1] = b[1] /\ a[2] < b[2])
+IdSeqOK == \A f \in s.frames :
+   f.seq = 2 * Cardinality({g \in s.frames : g.content /\ IdLess(g.id, f.id)}) + (IF f.content THEN 1 ELSE 0)
+
 Step ==
   \/ /\ Ev.ev = "ping" /\ Settled
      /\ s' = [s EXCEPT !.pst[Ev.k] = "started"]
@@ -152,12 +157,12 @@ Step ==
                  \/ Ev.salt \in {f.salt : f \in valid}
                  \/ (valid = {} /\ Ev.salt \in (s.everValid \cup {s.prev}))
               /\ resend => /\ s.due[Ev.k] # -1 /\ Ev.salt = s.due[Ev.k] /\ Ev.sameid /\ s.resent[Ev.k] = 0
+        \* frames are observed in the order they were WRITTEN; ids and sequence numbers are assigned earlier,
+        \* in one critical section, and concurrent senders may reach the wire in either order.  So uniqueness
+        \* is checked here and the sequence-number arithmetic in id order at the end of the case (IdSeqOK).
         /\ (Check = "C08") =>
               /\ Ev.idlow = 0
-              /\ resend \/ bigger
-              /\ Ev.idsec >= s.lastId[1] \/ resend
-              /\ Ev.type \in {"req", "drop"} => (resend \/ Ev.seqno = 2 * s.content + 1)
-              /\ Ev.type \notin {"req", "drop"} => Ev.seqno = 2 * s.content
+              /\ resend \/ \A f \in s.frames : f.id # idp
         /\ s' = [s EXCEPT
              !.prev = Ev.salt,
              !.pst = IF Ev.type = "ping" /\ Has(Ev, "k") THEN [@ EXCEPT ![Ev.k] = "sent"] ELSE @,
@@ -166,6 +171,7 @@ Step ==
              !.due = IF resend THEN [@ EXCEPT ![Ev.k] = -1] ELSE @,
              !.resent = IF resend THEN [@ EXCEPT ![Ev.k] = @ + 1] ELSE @,
              !.lastId = IF resend THEN @ ELSE idp,
+             !.frames = IF resend THEN @ ELSE @ \cup {[id |-> idp, seq |-> Ev.seqno, content |-> Ev.type \in {"req", "drop"}]},
              !.content = IF Ev.type \in {"req", "drop"} /\ ~resend THEN @ + 1 ELSE @]
   \/ /\ Ev.ev = "pingdone"
      /\ (Check = "C43") =>
@@ -197,6 +203,7 @@ Step ==
      /\ s' = [s EXCEPT !.ended = TRUE]
   \/ /\ Ev.ev = "endcase"
      /\ (Check = "C23") => s.upds \subseteq s.seenUpd
+     /\ (Check = "C08") => IdSeqOK
      /\ s' = s
 
 Next == /\ i <= Len(Trace) /\ i' = i + 1
